@@ -11,6 +11,7 @@ import subprocess
 
 from .. import audit, classify, drive, env, hist, snap, strace, world
 
+TECHNIQUE = 'runtime monitoring: sys.addaudithook event monitor + full snapshot differ around every command, strace syscall log on a sample of real sub-processes'
 LEVEL = "exploration"
 RULE = (
     "case = history state (none / flat / nested / tampered manifest / missing chain / missing manifest) x command with option "
